@@ -1,0 +1,31 @@
+//go:build verif
+
+// Verification contracts for cmd/proxy, property C28 (comment-only; read by /verif/govc).
+// This file contains no executable code.
+
+package main
+
+//@ spec func c28PartRewritten(out kmsg.MetadataResponseTopicPartition, in kmsg.MetadataResponseTopicPartition) bool = out.ErrorCode == in.ErrorCode && out.Partition == in.Partition && out.LeaderEpoch == in.LeaderEpoch && out.Leader == 0 && len(out.Replicas) == 1 && out.Replicas[0] == 0 && len(out.ISR) == 1 && out.ISR[0] == 0
+//@ spec func c28TopicKept(out kmsg.MetadataResponseTopic, in kmsg.MetadataResponseTopic) bool = out.ErrorCode == in.ErrorCode && out.Topic == in.Topic && out.TopicID == in.TopicID && out.IsInternal == in.IsInternal && len(out.Partitions) == len(in.Partitions)
+
+// buildProxyMetadataResponse: the reply lists exactly one broker - the proxy, node id 0, advertised host/port - and
+// names node 0 as controller; it has one topic entry per input topic, in order (counting invariants: the output
+// slice grows by exactly one element per iteration and never reallocates), and every element appended is right at
+// the moment it is appended:
+//   - each partition entry appended carries the input partition's index, error code and leader epoch, Leader == 0,
+//     Replicas == ISR == [0] (so every node id in the reply is the id of the one listed broker);
+//   - each topic entry appended carries the input topic's error code, name, topic id and internal flag and the
+//     partition list just built, which has one entry per input partition.
+// That an element is not modified after it was appended is NOT a clause (no statement of the function writes
+// through topics[k] / partitions[j] again; the engine's quantified frame reasoning over nested slices times out).
+//@ func buildProxyMetadataResponse
+//@   deep_closedness
+//@   ensures [C28.only_broker_is_proxy] result != nil && len(result.Brokers) == 1 && result.Brokers[0].NodeID == 0 && result.Brokers[0].Host == host && result.Brokers[0].Port == port
+//@   ensures [C28.controller_is_proxy] result.ControllerID == 0 && result.ClusterID == old(meta.ClusterID)
+//@   ensures [C28.one_topic_entry_per_input_topic] len(result.Topics) == old(len(meta.Topics))
+//@   loop 1 invariant [C28.topic_count] -1 <= rangeindex_1 && rangeindex_1 < len(meta.Topics) && len(topics) == rangeindex_1 + 1 && cap(topics) == len(meta.Topics)
+//@   loop 1 invariant len(brokers) == 1 && brokers[0].NodeID == 0 && brokers[0].Host == host && brokers[0].Port == port && sameSlice(meta.Topics, old(meta.Topics))
+//@   loop 2 invariant [C28.partition_count] -1 <= rangeindex_2 && rangeindex_2 < len(topic.Partitions) && len(partitions) == rangeindex_2 + 1 && cap(partitions) == len(topic.Partitions)
+//@   at append#1 before assert [C28.partition_points_at_proxy] len(arg1) == 1 && c28PartRewritten(arg1[0], meta.Topics[rangeindex_1].Partitions[rangeindex_2])
+//@   at append#2 before assert [C28.topic_kept] len(arg1) == 1 && c28TopicKept(arg1[0], meta.Topics[rangeindex_1]) && sameSlice(arg1[0].Partitions, partitions)
+//@   ensures [C28.reply_topics_are_the_built_list] sameSlice(result.Topics, topics)
